@@ -260,13 +260,17 @@ def roots(v, acc=None):
         for a in v.args:
             roots(a, acc)
     elif isinstance(v, (OpV,)):
+        acc.add("op:" + v.op)
         for a in v.args:
             roots(a, acc)
     elif isinstance(v, IndexV):
+        acc.add("op:index")
         roots(v.base, acc)
         roots(v.idx, acc)
     elif isinstance(v, MutV):
         roots(v.base, acc)
+        if v.ops:
+            acc.add("op:mutated")
         for o in v.ops:
             for x in o[2:]:
                 if isinstance(x, V):
@@ -446,11 +450,14 @@ class Interp:
     def call_closure(self, cl, args):
         act = Act(cl.r())
         self.ctx.append(("act", act))
+        owner = (cl.node.get("def") or "?").split("::{closure")[0]
+        self.fn_stack.append(owner)
         try:
             for p, a in zip(cl.node["params"], args):
                 self.bindpat(p, a, cl.frame)
             v = self.ev(cl.node["body"], cl.frame)
         finally:
+            self.fn_stack.pop()
             self.ctx.pop()
         if act.rets:
             alts = list(act.rets)
@@ -1025,10 +1032,14 @@ class Interp:
                 if isinstance(c0, StructV) and (c0.adt or "").startswith("std::ops::Range"):
                     lo, hi = self.concrete(c0.fields.get("start", Unknown("?"))), self.concrete(c0.fields.get("end", Unknown("?")))
                     incl = "Inclusive" in (c0.adt or "")
-                    return BoolV(atom("inrange", core(args[1]).r(), lo, hi, incl))
+                    a_ = atom("inrange", core(args[1]).r(), lo, hi, incl)
+                    self.atom_vals[a_[1]] = (args[1],)
+                    return BoolV(a_)
                 if isinstance(c0, CallV) and "RangeInclusive::new" in c0.callee and len(c0.args) == 2:
                     lo, hi = self.concrete(c0.args[0]), self.concrete(c0.args[1])
-                    return BoolV(atom("inrange", core(args[1]).r(), lo, hi, True))
+                    a_ = atom("inrange", core(args[1]).r(), lo, hi, True)
+                    self.atom_vals[a_[1]] = (args[1],)
+                    return BoolV(a_)
                 a_ = atom("contains", c0.r(), core(args[1]).r())
                 self.atom_vals[a_[1]] = (args[0], args[1])
                 return BoolV(a_)
